@@ -159,6 +159,8 @@ impl Array {
 
     fn index(&self, val: &Val) -> Result<Cow<'_, Val>, ValError> {
         match val {
+            // `as usize` would turn a negative number or NaN into 0: there is no such element
+            Val::Number(n) if n.is_nan() || *n < 0.0 => Ok(Cow::Owned(Val::Undefined)),
             Val::Number(n) => Ok(self.index_arr(*n as usize)),
             Val::Undefined => Ok(self.index_dict(&DictKeyRef::Undefined)),
             Val::Null => Ok(self.index_dict(&DictKeyRef::Null)),
@@ -180,8 +182,11 @@ impl Array {
 
     fn index_or_insert(&mut self, val: &Val) -> Result<&mut Val, ValError> {
         match val {
-            // `as usize` saturates: an index this large cannot be extended to (i + 1 overflows)
-            Val::Number(n) if *n as usize == usize::MAX => Err(ValError::InvalidKey(val.clone())),
+            // `as usize` saturates: an index this large cannot be extended to (i + 1 overflows),
+            // and a negative number or NaN would become 0
+            Val::Number(n) if n.is_nan() || *n < 0.0 || *n as usize == usize::MAX => {
+                Err(ValError::InvalidKey(val.clone()))
+            }
             Val::Number(n) => Ok(self.index_arr_or_insert(*n as usize)),
             Val::Undefined => Ok(self.index_dict_or_insert(DictKey::Undefined)),
             Val::Null => Ok(self.index_dict_or_insert(DictKey::Null)),
@@ -230,6 +235,7 @@ fn index_string(s: &str, i: usize) -> Val {
 
 fn index_string_with(s: &str, val: &Val) -> Result<Val, ValError> {
     match val {
+        Val::Number(n) if n.is_nan() || *n < 0.0 => Ok(Val::Undefined),
         Val::Number(n) => Ok(index_string(s, *n as usize)),
         _ => Err(ValError::InvalidKey(val.clone())),
     }
